@@ -468,11 +468,15 @@ def monitorCall (cfg : Cfg) (cmp : String) (m : MonSt) (name : String) (ln : Nat
          | none => r)
       | _ => r
     -- C13 (receiver side): ghost table of the bindings the peer announced on this connection
-    let inTbl0 : Mon.PeerTable := match op, delivered with
-      | ["closed"], _ => []
-      | _, some _ => []
-      | _, none => m.inTbl
+    let connectNow : Bool := evs.any fun (e : Ev) => match e with
+      | .send q _ => q.kind = Kind.connect
+      | .recv q => q.kind = Kind.connect
+      | _ => false
+    let inTbl0 : Mon.PeerTable := if op = ["closed"] ∨ connectNow then [] else m.inTbl
     let ownTam0 : Nat := match op with | ["closed"] => 0 | _ => m.ownTam
+    let frameTooLarge : Bool := match m.ownMps with
+      | some l => totalSize ((((parseRecvOracle oracle).frame.splitOn ":").getD 1 "").length / 2) > l
+      | none => false
     let (inTbl, r) := match op with
       | "recv" :: _ =>
         (match parseParsed (parseRecvOracle oracle).parsed with
@@ -492,7 +496,7 @@ def monitorCall (cfg : Cfg) (cmp : String) (m : MonSt) (name : String) (ln : Nat
              -- a binding is announced by every PUBLISH that carries a topic and an alias within the
              -- maximum we announced (also one we then refuse for another reason: the peer has said it)
              let t := match p.alias with
-               | some a => if !p.topic.isEmpty ∧ 1 ≤ a ∧ a ≤ ownTam0 then (a, p.topic) :: inTbl0.filter (fun (kv : Nat × List Nat) => kv.1 ≠ a) else inTbl0
+               | some a => if !p.topic.isEmpty ∧ 1 ≤ a ∧ a ≤ ownTam0 ∧ !frameTooLarge then (a, p.topic) :: inTbl0.filter (fun (kv : Nat × List Nat) => kv.1 ≠ a) else inTbl0
                | none => inTbl0
              (t, r)
            else (inTbl0, r)
@@ -782,7 +786,7 @@ def monitorCall (cfg : Cfg) (cmp : String) (m : MonSt) (name : String) (ln : Nat
            let id := p.pid.getD 0
            let nib := p.kind.nibble
            let tooLarge : Bool := totalSize ((((parseRecvOracle oracle).frame.splitOn ":").getD 1 "").length / 2) > (if m.prev.isEmpty then noLimit else (gp "mpr").toNat?.getD noLimit)
-           if (nib = 4 ∨ nib = 5 ∨ nib = 7) ∧ stBefore = "C" ∧ p.ver = ver ∧ pend0.contains (id, nib) ∧ (parseRecvOracle oracle).frame ≠ "none" ∧ !tooLarge then
+           if (nib = 4 ∨ nib = 5 ∨ nib = 7) ∧ stBefore = "C" ∧ p.ver = ver ∧ pend0.contains (id, nib) ∧ usedBefore id ∧ (parseRecvOracle oracle).frame ≠ "none" ∧ !tooLarge then
              let deliveredIt := evs.any fun (e : Ev) => match e with | .recv q => q.kind = p.kind ∧ q.pid = some id | _ => false
              let mustRelease := nib = 4 ∨ nib = 7 ∨ (nib = 5 ∧ Mon.isErrorRc p.rc)
              if !deliveredIt ∨ (mustRelease ∧ !rel.contains id) then
@@ -798,7 +802,8 @@ def monitorCall (cfg : Cfg) (cmp : String) (m : MonSt) (name : String) (ln : Nat
         else if q.kind = Kind.pubrel then (id, 7) :: acc.filter (fun (x : Nat × Nat) => x.1 ≠ id)
         else acc
       | .recv q =>
-        if q.kind = Kind.puback ∨ q.kind = Kind.pubcomp ∨ q.kind = Kind.pubrec then acc.filter (fun (x : Nat × Nat) => x.1 ≠ q.pid.getD 0)
+        if q.kind = Kind.puback ∨ q.kind = Kind.pubcomp then acc.filter (fun (x : Nat × Nat) => x.1 ≠ q.pid.getD 0)
+        else if q.kind = Kind.pubrec then acc.filter (fun (x : Nat × Nat) => x ≠ (q.pid.getD 0, 5))
         else acc
       | .released id => acc.filter (fun (x : Nat × Nat) => x.1 ≠ id)
       | _ => acc) pend0
@@ -879,7 +884,7 @@ def connY (run : ConnRun) (ln : Nat) (line : String) (r : Report) : ConnRun × R
   | [_, evS, retS, digest] =>
     let verR := kvGet (digestFields digest) "ver"
     let verF := kvGet (digestFields run.lastDig) "ver"
-    if pid ≠ "C17" ∧ (run.verDiff ∨ (digest ≠ "-" ∧ run.lastDig ≠ "-" ∧ verR ≠ verF)) then
+    if pid ≠ "C17" ∧ (run.verDiff ∨ evS = "ADOPTED" ∨ (digest ≠ "-" ∧ run.lastDig ≠ "-" ∧ verR ≠ verF)) then
       -- root cause classified: every further difference in this trace follows from it
       ({ run with verDiff := true }, r.viol s!"{pid} adopted_version_survives_close@undetermined" s!"{here}: a connection created with an undetermined version keeps the version adopted on its first connection after the transport closed: reused ver={verR}, fresh ver={verF}")
     else (run, if evS = "MISSING" ∨ evS.startsWith "EXTRA" then
